@@ -40,6 +40,20 @@ Theorem C02_tag_decisions :
 Proof. vm_compute. repeat split. Qed.
 Print Assumptions C02_tag_decisions.
 
+(* the mapping is unambiguous (stated about the writer alone): two well-typed values of a valid type never share a document -
+   the written form always identifies the active union case, null versus present, omitted versus present optional fields -
+   and two accepted write histories of a protocol never share a line stream *)
+From YV Require Import Proofs.JsonInjective.
+Theorem C02_document_determines_value : forall t, jty_ok t = true -> forall v1 v2,
+  jhas_type t v1 = true -> jhas_type t v2 = true -> to_json t v1 = to_json t v2 -> v1 = v2.
+Proof. exact to_json_inj. Qed.
+Print Assumptions C02_document_determines_value.
+Theorem C02_lines_determine_writes : forall p ws1 ws2,
+  jproto_ok p = true -> jwrites_ok p ws1 = true -> jwrites_ok p ws2 = true ->
+  write_lines p ws1 = write_lines p ws2 -> ws1 = ws2.
+Proof. exact write_lines_inj. Qed.
+Print Assumptions C02_lines_determine_writes.
+
 (* the hypotheses are satisfiable: a record with an omitted optional field inside an untagged nullable union, in a stream *)
 Definition ex_rec : jty := JTRec [([97], JTPrim PInt32); ([111], JTOpt (JTPrim PString))].
 Definition ex_union : jty := JTUnion true [([82], ex_rec); ([102], JTFlags PUint16 [([120], 1); ([121], 2)])].
